@@ -7,10 +7,13 @@
     every list is a schedule and time-outs may expire at ANY moment, a superset of "at
     quiescent moments").  Model: Model/Pool.v (line granularity, repaired code).
 
-    Not proved here (see level_note): the liveness half of the statement ("is executed once
-    the pool is running") and the FIFO clause for a single worker; both are decided on the
-    implementation by the oracle over the explored schedules only. *)
-From JR Require Import Pool PoolBase PoolInvDefs PoolSafety PoolLifecycle PoolHist.
+    The liveness half of the statement ("is executed once the pool is running") is proved in its
+    safety form only (C09_never_stranded: a queued task of a running pool at rest always has a
+    live worker serving the queue); that this worker is eventually scheduled and that Queue.get
+    returns a queued item are fairness / the queue's contract, outside the model.  The FIFO clause
+    for a single worker is not proved.  Both are decided on the implementation by the oracle over
+    the explored schedules. *)
+From JR Require Import Pool PoolBase PoolInvDefs PoolInvE PoolInvG PoolInvH PoolSafety PoolLifecycle PoolGrowth PoolHist.
 
 Theorem C09_at_most_once : forall mx mn progs sched t,
   valid_cfg mx mn -> (tstarts (run sched (init mx mn progs)) t <= 1)%nat.
@@ -41,3 +44,18 @@ Theorem C09_every_task_accounted_for : forall mx mn progs sched,
   (1 <= qocc t (q s) + count (holds_any t) (ws s) (next_w s) + b2n (settled s t))%nat.
 Proof. intros mx mn progs sched Hv s. exact (i_place _ (reachable_inv1 mx mn progs sched Hv)). Qed.
 Print Assumptions C09_every_task_accounted_for.
+
+(** between the return of start() and the call of stop(), with no enqueue() in flight, a non-empty
+    queue always has at least one worker thread serving it (counted in nb_threads = workers that may
+    still take an item): an accepted task is never left in a running pool without a worker *)
+Theorem C09_never_stranded : forall mx mn progs sched,
+  valid_cfg mx mn ->
+  let s := run sched (init mx mn progs) in
+  start_done s = true -> (forall c, ewin (cpc (cs s c)) = false) -> q s <> [] ->
+  1 <= nb_threads s /\ nb_threads s = Z.of_nat (count serving (ws s) (next_w s)).
+Proof.
+  intros mx mn progs sched Hv s Hsd Hall Hq. split.
+  - exact (proj2 (growth_at_rest mx mn progs sched Hv Hsd Hall) Hq).
+  - exact (i_nb _ (reachable_inv1 mx mn progs sched Hv)).
+Qed.
+Print Assumptions C09_never_stranded.
